@@ -104,12 +104,15 @@ type vChain struct {
 
 	escrowAddr sdk.AccAddress
 	lastHash   []byte
+	db         dbm.DB
+	restarts   int
 }
 
 func vNewChain(actorSeed int64, prof vProfile) *vChain {
 	db := dbm.NewMemDB()
 	a := NewApp(log.NewNopLogger(), db, nil, true, 0, map[int64]bool{}, DefaultHome, simapp.EmptyAppOptions{})
 	c := &vChain{
+		db:      db,
 		app:     a,
 		txcfg:   MakeEncodingConfig().TxConfig,
 		profile: prof,
@@ -156,6 +159,16 @@ func vNewChain(actorSeed int64, prof vProfile) *vChain {
 	return c
 }
 
+// restart simulates a node restart between two blocks: a new application
+// object is built over the same database and loads the last committed state.
+func (c *vChain) restart() {
+	if c.open {
+		panic("restart inside a block")
+	}
+	c.app = NewApp(log.NewNopLogger(), c.db, nil, true, 0, map[int64]bool{}, DefaultHome, simapp.EmptyAppOptions{})
+	c.restarts++
+}
+
 func (c *vChain) header() tmproto.Header {
 	return tmproto.Header{ChainID: vChainID, Height: c.height, Time: c.now}
 }
@@ -197,6 +210,18 @@ func (c *vChain) advance(gap int) [][]byte {
 		c.beginBlock()
 	}
 	return hashes
+}
+
+// advanceRestarting is advance() with a node restart after the first block
+// that gets committed on the way.
+func (c *vChain) advanceRestarting(gap int) [][]byte {
+	if !c.open || gap == 0 {
+		return c.advance(gap)
+	}
+	hashes := [][]byte{c.endBlock()}
+	c.restart()
+	c.beginBlock()
+	return append(hashes, c.advance(gap-1)...)
 }
 
 // ctx reads BaseApp's deliver state (between BeginBlock and Commit).
